@@ -242,7 +242,7 @@ func e6Case(seed uint64, n int, race bool) Case {
 			}
 			first := -1
 			for i, s := range sent {
-				if s.RV == got[0].RV {
+				if s.RV == got[0].RV && s.Type == got[0].Type && s.Obj == got[0].Obj {
 					first = i
 					break
 				}
@@ -397,7 +397,7 @@ func e6CtlCase(seed uint64, n int) Case {
 				continue
 			}
 			for i := range got {
-				if got[i].RV != want[i].RV || got[i].Type != want[i].Type || got[i].Key != want[i].Key {
+				if !sameEvent(got[i], want[i]) {
 					r.V("C05", "order-or-duplicate", "controller path: %s event %d is %s, the server's event at that position is %s", l.n, i, got[i], want[i])
 					break
 				}
